@@ -36,6 +36,7 @@ import (
 	"bytes"
 	"encoding/base64"
 	"errors"
+	"fmt"
 	"io"
 	"io/ioutil"
 
@@ -128,10 +129,17 @@ func ReadSource(filename string, src interface{}) ([]byte, error) {
 	return ioutil.ReadFile(filename)
 }
 
-func ReadSourceMap(filename string, src interface{}) (*sourcemap.Consumer, error) {
+func ReadSourceMap(filename string, src interface{}) (sm *sourcemap.Consumer, err error) {
 	if src == nil {
 		return nil, nil
 	}
+
+	// sourcemap.Parse dereferences what the JSON left nil (a section without a map): report it, do not crash the caller
+	defer func() {
+		if r := recover(); r != nil {
+			sm, err = nil, fmt.Errorf("invalid sourcemap: %v", r)
+		}
+	}()
 
 	switch src := src.(type) {
 	case string:
